@@ -221,7 +221,8 @@ def _evaluate(case):
                 if d:
                     raise C.MachineryError("recording not deterministic: %s" % d)
                 events = rec["events"]
-                faults = ["kill", "EXDEV", "EIO", "ENOSPC"] + (["EPERM", "EACCES"] if case["tier"] == "thorough" else [])
+                # (EINVAL / ENOSYS: what a file system or kernel answers to a flag or call it does not know)
+                faults = ["kill", "EXDEV", "EIO", "ENOSPC", "EINVAL"] + (["EPERM", "EACCES", "ENOSYS"] if case["tier"] == "thorough" else [])
                 plan = [(k, f) for k in range(len(events)) for f in faults if not S.impossible_fault(events, k, f)]
                 if case.get("only"):
                     plan = [tuple(case["only"])]
